@@ -206,8 +206,9 @@ def discharge(obls, timeout_ms=60000, jobs=None, second=False, portfolio_kinds=(
             for name, r, t, be, model, reason in P.imap_unordered(_cvc5_worker, open_, chunksize=1):
                 if r in ('sat', 'unsat'):
                     byname[name].result.update({'status': r, 'time': byname[name].result['time'] + t, 'backend': be})
-        if second:
-            qf = [(n, texts[n], timeout_ms, False) for n in texts if 'forall' not in texts[n] and 'lambda' not in texts[n]]
-            for name, r, t, be, model, reason in P.imap_unordered(_cvc5_worker, qf, chunksize=1):
-                byname[name].result['second'] = {'status': r, 'time': t, 'backend': be}
+    if second and P is not None:
+        # second opinion (cvc5) on every quantifier-free query, also when z3 decided all of them on the instantiated form
+        qf = [(n, texts[n], timeout_ms, False) for n in texts if 'forall' not in texts[n] and 'lambda' not in texts[n] and byname[n].result]
+        for name, r, t, be, model, reason in P.imap_unordered(_cvc5_worker, qf, chunksize=1):
+            byname[name].result['second'] = {'status': r, 'time': t, 'backend': be}
     return obls
